@@ -35,6 +35,8 @@ def gen_cfg(rng, focus=None, thorough=False):
         maxsize, how = 0, rng.choice(['kw', 'pos'])
     elif r < 0.16:
         maxsize, how = None, rng.choice(['kw', 'pos'])
+    elif r < 0.22:
+        maxsize, how = 100, 'default'       # maxsize not given at all: the documented default bound
     else:
         maxsize, how = rng.choice(focus.get('maxsizes', [1, 1, 2, 2, 3, 4, 5, 10, 25])), rng.choice(['kw', 'kw', 'pos'])
     purge = rng.choice([None, False, True, True])
@@ -97,6 +99,22 @@ def gen_ops(rng, cfg, n, focus=None):
             ops.append(('archset', a))
         ops.append(('load', []))
         ops.append(('setarch', sorted(rng.sample(range(nargs), rng.randint(0, 2)))))
+    # scenario: the memory cache is filled by a bulk load of results that were never called in this
+    # session (nothing in the use queue / counters knows them), then new arguments arrive
+    ms = cfg['maxsize'] if isinstance(cfg['maxsize'], int) else 0
+    if not direct and not focus.get('calls_only') and cfg['keymap'] != 'raw-nf' and 0 < ms <= nargs - 2 \
+            and rng.random() < focus.get('p_loadfill', 0.08):
+        m = rng.randint(ms, nargs - 2)
+        loaded = rng.sample(range(nargs), m)
+        fresh = [a for a in range(nargs) if a not in loaded]
+        for a in loaded:
+            ops.append(('archset', a))
+        ops.append(('load', []))
+        for a in fresh[:rng.randint(2, len(fresh))]:
+            ops.append(('call', a))
+        if rng.random() < 0.5:
+            ops.append(('call', rng.choice(loaded)))
+            ops.append(('call', rng.choice(fresh)))
     while len(ops) < n:
         if detach_at is not None and len(ops) >= detach_at:
             detach_at = None
@@ -110,16 +128,20 @@ def gen_ops(rng, cfg, n, focus=None):
 
         def arg(allow_special=True):
             nonlocal scan_i
-            if allow_special and cfg['special'] and rng.random() < 0.08:
+            if allow_special and cfg['special'] and rng.random() < focus.get('p_special_call', 0.08):
                 return rng.choice(cfg['special'])
             if allow_special and 'typed' in cfg['keymap'] and cfg.get('stub') != 'var' and rng.random() < focus.get('p_twin', 0.1) * (2 if cfg.get('stub') == 'req2' else 1):
                 return ('t', rng.randrange(6))
             if allow_special and rng.random() < focus.get('p_float', 0.12):
                 r2 = rng.random()
-                if r2 < 0.3:
+                if r2 < 0.18:
                     return ('f', rng.randrange(5))
+                if r2 < 0.3:
+                    return ('fk', rng.randrange(5))
                 if r2 < 0.45 and 'raw' not in cfg['keymap']:
                     return ('ft', rng.randrange(5))
+                if r2 < 0.6 and focus.get('cased', True):
+                    return ('sc', rng.randrange(4))
                 if r2 < 0.75 and 'typed' in cfg['keymap'] and cfg.get('stub') != 'var':
                     return ('t', rng.randrange(6))
                 if cfg.get('stub') == 'var' and cfg['keymap'] not in ('str', 'str-nf') and cfg['backend'] not in ('dir', 'direct-dir'):
@@ -153,5 +175,10 @@ def gen_ops(rng, cfg, n, focus=None):
             else:
                 ops.append(('setarch', sorted(rng.sample(range(nargs), rng.randint(0, nargs)))))
         elif kind == 'archset':
-            ops.append(('archset', arg(False)))
+            a = arg(False)
+            if isinstance(a, int) and rng.random() < focus.get('p_stale', 0):
+                # another user of the archive left a DIFFERENT value under this key (an older version of the function)
+                ops.append(('archset', a, 770000 + a))
+            else:
+                ops.append(('archset', a))
     return ops
